@@ -131,6 +131,10 @@ func genMsg(rng *hx.Rng, meta *hx.Meta, kinds []string) mspec {
 	k := kinds[rng.Intn(len(kinds))]
 	meta.Count("carrier", k)
 	n := sizes(rng)
+	return mkMsg(rng, meta, k, n)
+}
+
+func mkMsg(rng *hx.Rng, meta *hx.Meta, k string, n int) mspec {
 	meta.Count("size", hx.SizeBucket(n))
 	switch k {
 	case "vec", "writerto":
@@ -430,6 +434,31 @@ func main() {
 		}
 	}
 	fns := []string{"FToBytes", "FToReader", "FCount", "FByteRead", "FSteal"}
+	// boundary sweep: every helper x every carrier it supports x the smallest sizes (an exhausted / empty carrier
+	// is where Read-based conversions report io.EOF instead of the 0 content bytes), and the same through the head
+	sweepID := 3 + nh
+	for _, n := range []int{0, 1, 2} {
+		for _, k := range []string{"bytes", "vec", "buffer", "bytesreader", "stringsreader", "writerto", "reader"} {
+			for _, async := range []bool{false, true} {
+				meta.Count("carrier", k)
+				runHead(mkMsg(rng, meta, k, n), async, nh+sweepID)
+				sweepID++
+			}
+			for _, fn := range fns {
+				if fn == "FCount" && k != "vec" || fn == "FByteRead" && k != "reader" ||
+					fn == "FSteal" && (k == "bytes" || k == "vec" || k == "reader" || k == "buffer") || fn == "FToReader" && k == "writerto" {
+					continue
+				}
+				m := mkMsg(rng, meta, k, n)
+				if m.Kind == "reader" && m.Script.Fin == "err" {
+					m.Script.Fin = "eof"
+				}
+				meta.Count("carrier", k)
+				runHelper(fn, m, sweepID)
+				sweepID++
+			}
+		}
+	}
 	for i := 0; i < nh; i++ {
 		fn := fns[rng.Intn(len(fns))]
 		kinds := allKinds
